@@ -79,11 +79,17 @@ impl Definition {
 
 fn span_contains(span: Span, tree: &ParseTree, path: &Path, pos: LineCol) -> bool {
     let loc = tree.code_map.look_up_span(span);
-    loc.file.name() == path.to_str().unwrap()
-        && pos.line >= loc.begin.line
-        && pos.line <= loc.end.line
-        && pos.column >= loc.begin.column
-        && pos.column <= loc.end.column
+    // (a path that is not valid UTF-8 is not the name of any file we know; and a span that covers several lines
+    // contains every column of the lines in between)
+    Some(loc.file.name()) == path.to_str()
+        && (pos.line, pos.column) >= (loc.begin.line, loc.begin.column)
+        && (pos.line, pos.column) <= (loc.end.line, loc.end.column)
+}
+
+/// Does the span contain the position, and not merely end there?
+fn span_contains_strictly(span: Span, tree: &ParseTree, path: &Path, pos: LineCol) -> bool {
+    let loc = tree.code_map.look_up_span(span);
+    span_contains(span, tree, path, pos) && (pos.line, pos.column) < (loc.end.line, loc.end.column)
 }
 
 pub struct Analysis {
@@ -194,6 +200,17 @@ impl Analysis {
             .iter()
             .filter(|(ty, definition)| filter(ty) && definition.contains(&self.tree, &path, pos))
             .collect();
+        // The position right behind something (an identifier, a brace) is the position right in front of what follows. When
+        // that is something too, that is what is meant: '{foo' with the cursor in front of the 'f' is about 'foo'.
+        let starts_here = |definition: &Definition| {
+            definition
+                .definition_and_usages()
+                .into_iter()
+                .any(|dl| span_contains_strictly(dl.span, &self.tree, &path, pos))
+        };
+        if result.iter().any(|(_, definition)| starts_here(definition)) {
+            result.retain(|(_, definition)| starts_here(definition));
+        }
         // The definitions live in a hash map, so put them in a fixed order: the one with the narrowest location at
         // this position comes first (e.g. a label before the file that contains it)
         result.sort_by_key(|(ty, definition)| {
